@@ -197,8 +197,12 @@ def eval_cases(tag, prelude, cases, shard=400, timeout=900):
             err = (err or '') + '%s: unparsable output %s\n' % (name, out[-300:])
             continue
         failing.extend(k + int(x) for x in re.findall(r'\d+', m.group(1).replace('%nat', '')))
+    bad_shards = set(i // shard for i in failing)
     for name, k in files:
-        for ext in ('.vo', '.vok', '.vos', '.glob', '.aux'):
+        exts = ['.vo', '.vok', '.vos', '.glob', '.aux']
+        if (k // shard) not in bad_shards and not (err and name + ':' in err):
+            exts.append('.v')          # only shards with a disagreement (or an evaluation error) are kept on disk
+        for ext in exts:
             try:
                 os.remove(os.path.join(d, ('.' if ext == '.aux' else '') + name + ext))
             except OSError:
